@@ -15,6 +15,7 @@ Line-protocol front end of the C11 model.
 Token spelling: `|| && == != < <~ > >~ = ! ( ) true false 123 123u name`; `<~`/`>~` = angle bracket
 directly followed by the next token.  Observation: `ok line|line|…` (tokens joined by one space) or
 `err <PreprocessError variant>`; for `C11.cond`: `1`, `0` or `err …`.
+Every request may carry one more field, the whitespace style (0-3) used by the harness when rendering.
 -/
 namespace RsslVerif.Driver.C11
 open RsslVerif.Gen.CondTables RsslVerif.Model.CondExpr RsslVerif.Model.CondChain RsslVerif.Driver
@@ -141,7 +142,7 @@ def parseDefs (s : String) : Option Macros :=
     | n :: b :: more => some (n, parseToks ("=".intercalate (b :: more)))
     | _ => none)
 
-def handle (op : String) (args : List String) : String :=
+def handleCore (op : String) (args : List String) : String :=
   match op, args with
   | "C11.seq", [syms] =>
     match symDirs syms with
@@ -163,5 +164,14 @@ def handle (op : String) (args : List String) : String :=
       else "unsupported macro body"
     | none => "bad-request"
   | _, _ => "unsupported-op"
+
+/-- the optional last field is the whitespace/comment style the harness renders the lines with; the
+    model works on tokens and ignores it -/
+def handle (op : String) (args : List String) : String :=
+  match op, args with
+  | "C11.seq", [a, _] => handleCore op [a]
+  | "C11.run", [a, _] => handleCore op [a]
+  | "C11.cond", [a, b, _] => handleCore op [a, b]
+  | _, _ => handleCore op args
 
 end RsslVerif.Driver.C11
